@@ -269,6 +269,7 @@ type Explorer struct {
 	AllNodes    []*Node
 	Samples     []string
 	ctxs        []*Ctx
+	module      string
 }
 
 func NewExplorer(spec *Spec, bin, scratch string, workers int, deadline time.Time) *Explorer {
